@@ -182,23 +182,24 @@ RECIP_COMMON = {'alloc_link': 'verif_alloc_link', 'free_link': 'verif_free_link'
 LIST_FUNCS = [dict(name='_dbus_list_append/_remove_link/_clear/_get_first_link/_get_last_link', file='dbus/dbus-list.c', status='inlined', note='real pointer code'),
               dict(name='alloc_link/free_link', file='dbus/dbus-list.c', status='stub', note='static pool of links instead of mempool + global lock; allocation may fail'),
               dict(name='match_rule_to_string', file=SIG, status='stub', note='feeds _dbus_verbose only (logging is dropped)')]
-UNITS.append(dict(
-    name='C07.recipients.r3c3', props=['C07', 'C05'], kind='B', route='plain', bus=True, tus=RECIP_TUS, harness='harness/c07_recip.c', extra_sources=[MEM], defines=['VERIF_PART=1'],
-    replace_calls=dict(RECIP_COMMON, **{'match_rule_matches': 'verif_stub_match_rule_matches', 'dbus_message_get_type': 'verif_stub_get_type',
-                                       'dbus_message_get_interface': 'verif_stub_get_interface', '_dbus_hash_table_lookup_string': 'verif_stub_hash_lookup_string'}),
-    unwind=12, timeout=900, expect_s=90, must_have=['post1', 'post2', 'post3', 'post5'],
-    bounds={'rules': 3, 'connections': 3, 'lists': 'the four lists a message selects out of 5 type pools x (no interface | one interface bucket)'},
-    functions=[dict(name='bus_matchmaker_get_recipients, get_recipients_from_list, bus_matchmaker_get_rules', file=SIG, status='bounded', contract='each connection listed exactly once iff one of its rules in a selected list matches and it is not the addressed recipient; OOM => FALSE, empty list'),
-               dict(name='bus_connection_mark_stamp, bus_connections_increment_stamp', file=CONN, status='bounded', note='real code'),
-               dict(name='match_rule_matches', file=SIG, status='replaced', note='contract of C07.match: arbitrary verdict per rule; must be asked with already_matched = TYPE|INTERFACE'),
-               dict(name='_dbus_hash_table_lookup_string', file='dbus/dbus-hash.c', status='stub', note='ghost map: at most one interface bucket per type pool'),
-               dict(name='dbus_connection_get_data', file='dbus/dbus-connection.c', status='stub', note='returns the BusConnectionData of that connection'),
-               dict(name='dbus_message_get_type/_get_interface', file='dbus/dbus-message.c', status='stub', note='message facts')] + LIST_FUNCS,
-    assumptions=['connection stamps are not ahead of the global stamp (they were written in earlier rounds; wrap-around after INT_MAX rounds is excluded, as the code comment says)']))
+for _nr, _tier, _exp in ((2, 'quick', 60), (3, 'thorough', 330)):
+  UNITS.append(dict(
+      name='C07.recipients.r%dc3' % _nr, tier=_tier, props=['C07', 'C05'], kind='B', route='plain', bus=True, tus=RECIP_TUS, harness='harness/c07_recip.c', extra_sources=[MEM], defines=['VERIF_PART=1', 'C07_NR=%d' % _nr],
+      replace_calls=dict(RECIP_COMMON, **{'match_rule_matches': 'verif_stub_match_rule_matches', 'dbus_message_get_type': 'verif_stub_get_type',
+                                         'dbus_message_get_interface': 'verif_stub_get_interface', '_dbus_hash_table_lookup_string': 'verif_stub_hash_lookup_string'}),
+      unwind=6, timeout=900, expect_s=_exp, must_have=['post1', 'post2', 'post3', 'post5'],
+      bounds={'rules': _nr, 'connections': 3, 'lists': 'the four lists a message selects out of 5 type pools x (no interface | one interface bucket)'},
+      functions=[dict(name='bus_matchmaker_get_recipients, get_recipients_from_list, bus_matchmaker_get_rules', file=SIG, status='bounded', contract='each connection listed exactly once iff one of its rules in a selected list matches and it is not the addressed recipient; OOM => FALSE, empty list'),
+                 dict(name='bus_connection_mark_stamp, bus_connections_increment_stamp', file=CONN, status='bounded', note='real code'),
+                 dict(name='match_rule_matches', file=SIG, status='replaced', note='contract of C07.match: arbitrary verdict per rule; must be asked with already_matched = TYPE|INTERFACE'),
+                 dict(name='_dbus_hash_table_lookup_string', file='dbus/dbus-hash.c', status='stub', note='ghost map: at most one interface bucket per type pool'),
+                 dict(name='dbus_connection_get_data', file='dbus/dbus-connection.c', status='stub', note='returns the BusConnectionData of that connection'),
+                 dict(name='dbus_message_get_type/_get_interface', file='dbus/dbus-message.c', status='stub', note='message facts')] + LIST_FUNCS,
+      assumptions=['connection stamps are not ahead of the global stamp (they were written in earlier rounds; wrap-around after INT_MAX rounds is excluded, as the code comment says)']))
 UNITS.append(dict(
     name='C07.remove_by_value.r3', props=['C07'], kind='B', route='plain', bus=True, tus=RECIP_TUS, harness='harness/c07_recip.c', extra_sources=[MEM], defines=['VERIF_PART=2'],
     replace_calls=dict(RECIP_COMMON, **{'bus_connection_remove_match_rule': 'verif_stub_connection_remove_match_rule', 'bus_match_rule_unref': 'verif_stub_rule_unref', 'dbus_set_error': 'verif_stub_set_error'}),
-    unwind=12, timeout=600, expect_s=30, must_have=['post1', 'post2', 'post3', 'post4'],
+    unwind=6, timeout=600, expect_s=30, must_have=['post1', 'post2', 'post3', 'post4'],
     bounds={'rules': 3, 'owners': 2, 'rule_shapes': "member='x' / member='y'"},
     functions=[dict(name='bus_matchmaker_remove_rule_by_value, bus_matchmaker_remove_rule_link, match_rule_equal', file=SIG, status='bounded', contract='removes exactly the most recently added rule equal to the argument, or MatchRuleNotFound and no change'),
                dict(name='bus_connection_remove_match_rule, bus_match_rule_unref, dbus_set_error', file='bus/connection.c, bus/signals.c, dbus/dbus-errors.c', status='stub', note='counted per rule / error name recorded')] + LIST_FUNCS,
@@ -206,8 +207,53 @@ UNITS.append(dict(
 UNITS.append(dict(
     name='C07.disconnected.r3', props=['C07'], kind='B', route='plain', bus=True, tus=RECIP_TUS, harness='harness/c07_recip.c', extra_sources=[MEM], defines=['VERIF_PART=3'],
     replace_calls=dict(RECIP_COMMON, **{'bus_connection_remove_match_rule': 'verif_stub_connection_remove_match_rule', 'bus_match_rule_unref': 'verif_stub_rule_unref', 'bus_connection_get_name': 'verif_stub_connection_get_name'}),
-    unwind=12, timeout=600, expect_s=30, must_have=['post1', 'post2', 'post3'],
+    unwind=6, timeout=600, expect_s=30, must_have=['post1', 'post2', 'post3'],
     bounds={'rules': 3, 'owners': 2, 'note': 'one rule list; the loop over pools and hash buckets in bus_matchmaker_disconnected is not executed (hash iteration)'},
     functions=[dict(name='rule_list_remove_by_connection, bus_matchmaker_remove_rule_link', file=SIG, status='bounded', contract='removes every rule owned by the connection or naming its unique name as sender; the others stay; each removed rule leaves its owner list and is released once'),
                dict(name='bus_matchmaker_disconnected', file=SIG, status='assumed', note='applies rule_list_remove_by_connection to every list of every pool (hash iteration not executed)')] + LIST_FUNCS,
     assumptions=['bus_matchmaker_disconnected visits every rule list (loop over 5 pools x hash buckets: read, not executed)']))
+
+# ------------------------------------------------------------------------------------------------------------
+# 7. T: the AddMatch / RemoveMatch method handlers of the bus driver
+DRV = 'bus/driver.c'
+DRV_STUBS = {
+    'bus_transaction_get_context': 'verif_stub_transaction_get_context', 'bus_context_get_max_match_rules_per_connection': 'verif_stub_get_max_match_rules',
+    'bus_connection_get_n_match_rules': 'verif_stub_get_n_match_rules', 'dbus_error_init': 'verif_stub_error_init', 'dbus_error_is_set': 'verif_stub_error_is_set',
+    'dbus_set_error': 'verif_stub_set_error', 'dbus_set_error_const': 'verif_stub_set_error_const', 'dbus_move_error': 'verif_stub_move_error',
+    'bus_connection_is_active': 'verif_stub_connection_is_active', 'bus_connection_get_name': 'verif_stub_connection_get_name', 'bus_context_log': 'verif_stub_context_log',
+    'bus_context_get_type': 'verif_stub_context_get_type', 'dbus_message_get_args': 'verif_stub_message_get_args', '_dbus_string_init_const': 'verif_stub_init_const',
+    'bus_match_rule_parse': 'verif_stub_rule_parse', 'bus_match_rule_get_client_is_eavesdropping': 'verif_stub_rule_get_eaves',
+    'bus_driver_check_caller_is_privileged': 'verif_stub_check_privileged', 'bus_apparmor_allows_eavesdropping': 'verif_stub_aa_allows_eavesdropping',
+    'bus_connection_get_matchmaker': 'verif_stub_get_matchmaker', 'bus_matchmaker_add_rule': 'verif_stub_add_rule', 'bus_matchmaker_remove_rule': 'verif_stub_remove_rule',
+    'bus_driver_send_ack_reply': 'verif_stub_send_ack', 'bus_matchmaker_remove_rule_by_value': 'verif_stub_remove_by_value', 'bus_match_rule_unref': 'verif_stub_rule_unref'}
+for fn_no, nm, fn in ((1, 'add_match', 'bus_driver_handle_add_match'), (2, 'remove_match', 'bus_driver_handle_remove_match')):
+    UNITS.append(dict(
+        name='C07.driver.' + nm, props=['C07', 'C13'], kind='P', route='stub', bus=True, tus=[dict(file=DRV, include_as='VERIF_TU')], harness='harness/c07_driver.c',
+        defines=['VERIF_FN=%d' % fn_no], replace_calls=DRV_STUBS, timeout=300, expect_s=10, must_have=['post1', 'post2', 'post3', 'post4'],
+        functions=[dict(name=fn, file=DRV, status='enforced', contract='typestate postconditions (see harness header): limit before mutation, error names passed on, rule in the matchmaker iff TRUE, references released once' if fn_no == 1 else 'typestate postconditions: TRUE <=> one successful removal by value after the ack; MatchRuleNotFound passed on; references released once'),
+                   dict(name='bus_match_rule_parse', file=SIG, status='replaced', note='C07.parse: rule or NULL with MatchRuleInvalid / LimitsExceeded / NoMemory'),
+                   dict(name='bus_matchmaker_remove_rule_by_value', file=SIG, status='replaced', note='C07.remove_by_value.r3 (B): TRUE or MatchRuleNotFound'),
+                   dict(name='bus_matchmaker_add_rule/_remove_rule, bus_match_rule_unref', file=SIG, status='stub', note='counted; add may fail (OOM)'),
+                   dict(name='bus_driver_check_caller_is_privileged, bus_apparmor_allows_eavesdropping', file='bus/driver.c, bus/apparmor.c', status='assumed', note='arbitrary verdict; error set on refusal'),
+                   dict(name='dbus_message_get_args, bus_driver_send_ack_reply, bus_context_*, bus_connection_*, dbus_*error*', file='dbus/*.c, bus/*.c', status='stub', note='typestate contracts (see harness)')],
+        assumptions=['error points to a clear DBusError (bus_driver_handle_message)']))
+
+# ------------------------------------------------------------------------------------------------------------
+# lemma: macro forms of the oracle == plain C forms (no dbus code)
+UNITS.append(dict(
+    name='C07.ref_lemma', props=['C07'], kind='B', route='plain', bus=True, tus=[], harness='harness/c07_lemma.c', unwind=12, timeout=600, expect_s=30,
+    must_have=['lemma1', 'lemma2', 'lemma3', 'lemma4'], bounds={'string_bytes': 8},
+    functions=[dict(name='REF_ARGM / REF_STREQ_N / REF_PATH_IN_NS_N / header conjuncts (spec/match_ref.h, harness/c07_match.c)', file='spec/match_ref.h', status='bounded', contract='equal to ref_arg_matches / ref_streq / ref_path_in_namespace / ref_header_matches on strings <= 8 bytes')],
+    assumptions=[]))
+
+# finder for the matcher (role finder: only run to search a concrete input after C07.match / C07.match.nonempty turned red)
+UNITS.append(dict(
+    name='C07.find.match', props=['C07'], kind='B', route='plain', role='finder', bus=True,
+    tus=[dict(file=SIG, overlay='c07_signals.ovl', include_as='VERIF_TU')], harness='harness/c07_match.c', defines=['VERIF_FINDER'],
+    replace_calls=MATCH_STUBS, unwind=12, unwindset=['harness.0:66'], timeout=600, expect_s=60,
+    trace_is_execution=True, replay_family='match', replay_fn='argmatch', replay_scalars=['kind', 'atype', 'alen', 'a0', 'a1', 'a2', 'a3', 'a4', 'a5', 'a6', 'a7'],
+    bounds={'rule': 'one argument match on index 0, no other key', 'string_bytes': 8},
+    functions=[dict(name='match_rule_matches', file=SIG, status='bounded', note='finder only: same harness and postconditions as C07.match, args loop unwound for one argument')], assumptions=[]))
+for _u in UNITS:
+    if _u['name'] in ('C07.match', 'C07.match.nonempty'):
+        _u['finder'] = 'C07.find.match'
